@@ -327,7 +327,8 @@ def block (st : DocSt) (b : List Str) : Option DocSt :=
       -- comment: the text after NOTE and the following lines (a repeated NOTE prefix is dropped)
       let more := rest.map fun l => match noteLine l with | some c => c | none => l
       let all := (if c = [] then [] else [c]) ++ more
-      if all.any (fun l => contains arrow l || l = [] || hasPrefix "STYLE".toList l || hasPrefix "Region: ".toList l || hasPrefix "X-TIMESTAMP-MAP".toList l) then none else some { st with comments := st.comments ++ all }
+      -- a comment lasts until the next blank line: lines that look like other block openers are comment text
+      if all.any (fun l => contains arrow l || l = []) then none else some { st with comments := st.comments ++ all }
     | none =>
       if first = "STYLE".toList then
         if rest.any (fun l => contains arrow l || opener l) then none else
